@@ -113,6 +113,28 @@ def seq_next(ex, it):
     return Some(v)
 
 
+def splitstr_next(ex, it):
+    """str::split / splitn with a non-empty ASCII literal pattern: pieces between successive (non-overlapping,
+    leftmost) occurrences; a trailing empty piece is yielded"""
+    if it.finished or it.count == 0:
+        return NoneV()
+    s = it.s
+    rest = Str(s.buf, it.pos, s.end, s.is_str)
+    if it.count == 1:
+        it.count = 0
+        it.finished = True
+        return Some(rest)
+    it.count -= 1
+    r = models.dispatch(ex, 'core::str::<impl str>::find::<&str>', [rest, it.lit], {'generics': {}})
+    if r.variant == 'None':
+        it.finished = True
+        return Some(rest)
+    j = add(it.pos, r.fields[0])
+    piece = Str(s.buf, it.pos, j, s.is_str)
+    it.pos = add(j, len(it.lit.bytes()))
+    return Some(piece)
+
+
 def apply_fn(ex, fn, args):
     if isinstance(fn, Closure):
         return models.call_closure(ex, fn, args)
@@ -305,6 +327,9 @@ def hook(ex, func, argv, frame):
         if isinstance(a[1], Closure):
             fn, key = models.closure_pred(ex, a[1])
             return True, Opaque('splitn', s=s, pos=s.start, count=10 ** 9, finished=False, pred=fn, key='clo_' + stable_hash(a[1].fnname + key))
+        pat = deref(a[1]) if isinstance(a[1], (Ref, Str)) else None
+        if isinstance(pat, Str) and pat.concrete() and 0 < len(pat.bytes()) and all(b < 128 for b in pat.bytes()):
+            return True, Opaque('splitstr', s=s, pos=s.start, lit=pat, finished=False, count=10 ** 9)
         raise Unsupported('split pattern kind')
     if g == 'core::str::<impl str>::splitn' and f.endswith('::<char>'):
         s = deref(a[0])
